@@ -362,6 +362,8 @@ func tcTotality(o *sup.Outcome) string {
 	switch {
 	case o.Died() && strings.Contains(o.Deaths[0], "verif: scanner step budget"):
 		return "" // the parser's business (C11)
+	case o.Died() && strings.Contains(o.Deaths[0], "verif: typecheck allocation budget exceeded"):
+		return "the typechecker does not come to a verdict within its allocation budget (1 GiB + 1 MB per input byte): a blow-up outside the type algorithms"
 	case o.Died():
 		return "typechecker killed the host: " + normDeath(o.Deaths[0])
 	case o.PostDeath != "":
@@ -383,7 +385,7 @@ func tcTotality(o *sup.Outcome) string {
 func checkC09() int {
 	c := NewCheck("C09")
 	pool := newPool()
-	c.Rule = "texts the parser accepts: corpus, G1 programs, single-edit mutants of every family (incl. explicit polarities on every kind of name position and ill-formed type definitions), G3 token soups and prefix/mutation variants of corpus files that happen to parse, type-equality probes (forward / call / cut between two names of a G2 environment with unrolled, aliased and one-difference variants); oracle: the worker survives, a verdict is returned, success implies the checker ran to its end, and no checking step happens after the verdict; hangs are decided by a logical step budget in the type algorithms; non-trivial = distinct text that parsed and was typechecked"
+	c.Rule = "texts the parser accepts: corpus, G1 programs, single-edit mutants of every family (incl. explicit polarities on every kind of name position and ill-formed type definitions), G3 token soups and prefix/mutation variants of corpus files that happen to parse, type-equality probes (forward / call / cut between two names of a G2 environment with unrolled, aliased and one-difference variants); oracle: the worker survives, a verdict is returned, success implies the checker ran to its end, and no checking step happens after the verdict; hangs are decided by a logical step budget in the type algorithms and, outside them, by an allocation budget (1 GiB + 1 MB per input byte) sampled next to the call; the workload includes G1 programs made large in one respect (chains of 20..60 cuts, alias chains, padding); non-trivial = distinct text that parsed and was typechecked"
 	c.Assumptions = []string{"a stack overflow or runtime panic anywhere in the worker during or after a typecheck job is attributed to that job", "wall-clock watchdogs only ever produce 'inconclusive'"}
 	var texts []string
 	var tags []string
@@ -431,6 +433,14 @@ func checkC09() int {
 	for _, t := range soupTexts(c, c.pick(1500, 40000)) {
 		add("G3", t)
 	}
+	// programs made large in one respect (long chains of cuts, alias chains, many
+	// definitions / functions / parameters, long names)
+	for i, pc := range cases {
+		if i%2 == 0 {
+			q, kind := mut.Inflate(pc.P, r, []string{"cut-chain", "", "alias-chain", ""}[(i/2)%4])
+			add("inflated-"+kind, q.Text())
+		}
+	}
 	// type-equality probes: the checker compares pairs of (equal or nearly equal, often
 	// out-of-phase recursive) names of G2 environments
 	for _, p := range genEqProbes(subSeed(c.Seed, 9090), c.pick(100, 2000), c.pick(8, 12)) {
@@ -443,7 +453,7 @@ func checkC09() int {
 	}
 	jobs := make([]sup.Job, len(texts))
 	for i, t := range texts {
-		jobs[i] = sup.Job{Kind: "typecheck", Text: t, Tag: tags[i], TypeBudget: 5000000}
+		jobs[i] = sup.Job{Kind: "typecheck", Text: t, Tag: tags[i], TypeBudget: 5000000, AllocBudget: 1<<30 + 1000000*uint64(len(t))}
 	}
 	outs := pool.Run(jobs, nil)
 	parsed, byTag := 0, map[string]int{}
